@@ -14,24 +14,24 @@ macro_rules! chain { ($op:expr, $f:expr, $a:expr; $($g:path),+) => {{ $( if let 
 fn centroid<S: Sc + num_traits::NumCast>(op: &str, _f: &str, a: &[Val<S>]) -> Option<Val<S>> { crate::exec_lin::exec_centroid(op, a) }
 impl Exec for crate::q::Q {
     fn exec(op: &str, f: &str, a: &[Val<Self>]) -> Option<Val<Self>> {
-        chain!(op, f, a; crate::exec_lin::exec_num, crate::exec_lin::exec_signed, centroid, crate::exec_lin::exec_flt_lin, crate::exec_geo::exec_flt_geo, crate::exec_misc::exec_flt_misc)
+        chain!(op, f, a; crate::exec_lin::exec_num, crate::exec_misc::exec_views, crate::exec_lin::exec_signed, centroid, crate::exec_lin::exec_flt_lin, crate::exec_geo::exec_flt_geo, crate::exec_misc::exec_flt_misc)
     }
 }
 impl Exec for f64 {
     fn exec(op: &str, f: &str, a: &[Val<Self>]) -> Option<Val<Self>> {
-        chain!(op, f, a; crate::exec_lin::exec_num, crate::exec_lin::exec_signed, centroid, crate::exec_lin::exec_flt_lin, crate::exec_geo::exec_flt_geo, crate::exec_misc::exec_flt_misc)
+        chain!(op, f, a; crate::exec_lin::exec_num, crate::exec_misc::exec_views, crate::exec_lin::exec_signed, centroid, crate::exec_lin::exec_flt_lin, crate::exec_geo::exec_flt_geo, crate::exec_misc::exec_flt_misc, crate::exec_serde::exec_serde)
     }
 }
 impl Exec for f32 {
     fn exec(op: &str, f: &str, a: &[Val<Self>]) -> Option<Val<Self>> {
-        chain!(op, f, a; crate::exec_lin::exec_num, crate::exec_lin::exec_signed, centroid, crate::exec_lin::exec_flt_lin, crate::exec_geo::exec_flt_geo, crate::exec_misc::exec_flt_misc)
+        chain!(op, f, a; crate::exec_lin::exec_num, crate::exec_misc::exec_views, crate::exec_lin::exec_signed, centroid, crate::exec_lin::exec_flt_lin, crate::exec_geo::exec_flt_geo, crate::exec_misc::exec_flt_misc, crate::exec_serde::exec_serde)
     }
 }
 macro_rules! exec_signed { ($($t:ident),+) => { $(impl Exec for $t {
-    fn exec(op: &str, f: &str, a: &[Val<Self>]) -> Option<Val<Self>> { chain!(op, f, a; crate::exec_lin::exec_num, crate::exec_lin::exec_signed, centroid) }
+    fn exec(op: &str, f: &str, a: &[Val<Self>]) -> Option<Val<Self>> { chain!(op, f, a; crate::exec_lin::exec_num, crate::exec_misc::exec_views, crate::exec_lin::exec_signed, centroid) }
 })+ } }
 macro_rules! exec_unsigned { ($($t:ident),+) => { $(impl Exec for $t {
-    fn exec(op: &str, f: &str, a: &[Val<Self>]) -> Option<Val<Self>> { chain!(op, f, a; crate::exec_lin::exec_num, centroid) }
+    fn exec(op: &str, f: &str, a: &[Val<Self>]) -> Option<Val<Self>> { chain!(op, f, a; crate::exec_lin::exec_num, crate::exec_misc::exec_views, centroid) }
 })+ } }
 exec_signed!(i8, i16, i32, i64, isize);
 exec_unsigned!(u8, u16, u32, u64, usize);
